@@ -99,7 +99,7 @@ def check_positions(c, sc, answers, res, rec, out, case):
         q = quats[mi] if isinstance(quats[mi], R) else R.from_quat(quats[mi])
         pred = q.apply(rp_only - pp[0]) + X[0]
         ins = tail[mi * len(ins_idx):(mi + 1) * len(ins_idx)]
-        tol = cprime * eps + 1e-6
+        tol = cprime * eps + 1e-6 * (1 + float(np.linalg.norm(P_all - pp[0], axis=1).max()))      # rounding floor grows with the lever arm
         d = (pred - ins) @ inv
         ins_u = ins + np.round(d) @ cell
         fit = kabsch(P_all, np.vstack([X, ins_u]))[0]
@@ -134,7 +134,8 @@ def run(sc, ctx):
         ex = explorer(ctx)
         inv = np.linalg.inv(c['cell'])
         eps0 = max([kabsch(c['pp'], np.asarray(x))[0] for x in exs[0][4][1]] + [0.0])
-        tol = 1e-6 + 2 * combined_c(c['pp'], c['rpos']) * eps0
+        lever = float(np.linalg.norm(np.vstack([c['pp'], c['rpos']]) - c['pp'][0], axis=1).max())      # rounding in the constructed rotation is amplified by the lever arm
+        tol = 1e-6 * (1 + lever) + 2 * combined_c(c['pp'], c['rpos']) * eps0
         for ji, (Rm, t) in enumerate(joint_motions(ctx['seed'], 3 if ctx['tier'] == 'quick' else 6)):
             sp2 = pattern_atoms(c['pel'], (Rm @ c['pp'].T).T + t, q0=-0.7, g0=90)
             rp2 = pattern_atoms(c['rel'], (Rm @ c['rpos'].T).T + t)
